@@ -156,6 +156,8 @@ async def run_scheduler_loop(scheduler: TaskiqScheduler) -> None:
     """
     loop = asyncio.get_event_loop()
     running_schedules = set()
+    # Ids of one-shot schedules whose send is still waiting or in progress.
+    pending_one_shots = set()
     while True:
         # We use this method to correctly sleep for one minute.
         scheduled_tasks = await get_all_schedules(scheduler)
@@ -173,11 +175,23 @@ async def run_scheduler_loop(scheduler: TaskiqScheduler) -> None:
                     )
                     continue
                 if task_delay is not None:
+                    if task.cron is None:
+                        # The source lists a one-shot schedule until it was sent,
+                        # so we can meet it again while its send is still pending.
+                        if task.schedule_id in pending_one_shots:
+                            continue
+                        pending_one_shots.add(task.schedule_id)
                     send_task = loop.create_task(
                         delayed_send(scheduler, source, task, task_delay),
                     )
                     running_schedules.add(send_task)
                     send_task.add_done_callback(running_schedules.discard)
+                    if task.cron is None:
+                        send_task.add_done_callback(
+                            lambda _, sid=task.schedule_id: pending_one_shots.discard(
+                                sid,
+                            ),
+                        )
         next_minute = datetime.now().replace(second=0, microsecond=0) + timedelta(
             minutes=1,
         )
